@@ -13,14 +13,14 @@ let z_of_int (n : int) : z =
 
 let ten = z_of_int 10
 
-let z_of_string (s : string) : z =
-  let neg = String.length s > 0 && s.[0] = '-' in
-  let body = if neg then String.sub s 1 (String.length s - 1) else s in
+let z_of_string (s : Stdlib.String.t) : z =
+  let neg = Stdlib.String.length s > 0 && s.[0] = '-' in
+  let body = if neg then Stdlib.String.sub s 1 (Stdlib.String.length s - 1) else s in
   let v =
-    if String.length body <= 18 then z_of_int (int_of_string body)
+    if Stdlib.String.length body <= 18 then z_of_int (int_of_string body)
     else begin
       let acc = ref Z0 in
-      String.iter (fun ch ->
+      Stdlib.String.iter (fun ch ->
         acc := Z.add (Z.mul !acc ten) (z_of_int (Char.code ch - 48))) body;
       !acc
     end in
@@ -35,7 +35,7 @@ let rec int_of_pos (p : positive) : int =
 let rec pos_bits (p : positive) : int =
   match p with XH -> 1 | XO q | XI q -> 1 + pos_bits q
 
-let rec string_of_z (x : z) : string =
+let rec string_of_z (x : z) : Stdlib.String.t =
   match x with
   | Z0 -> "0"
   | Zneg p -> "-" ^ string_of_z (Zpos p)
@@ -46,13 +46,13 @@ let rec string_of_z (x : z) : string =
       string_of_z q ^ string_of_z r
     end
 
-let parse_line (line : string) : z list =
-  let toks = List.filter (fun s -> s <> "") (String.split_on_char ' ' line) in
+let parse_line (line : Stdlib.String.t) : z list =
+  let toks = List.filter (fun s -> s <> "") (Stdlib.String.split_on_char ' ' line) in
   List.map z_of_string toks
 
-let parse_records (line : string) : z list list =
+let parse_records (line : Stdlib.String.t) : z list list =
   List.filter (fun r -> r <> [])
-    (List.map (fun part -> parse_line part) (String.split_on_char '|' line))
+    (List.map (fun part -> parse_line part) (Stdlib.String.split_on_char '|' line))
 
 let print_records (buf : Buffer.t) (out : z list list) : unit =
   Buffer.clear buf;
@@ -78,7 +78,7 @@ let () =
       done
     with End_of_file -> ())
   end else begin
-    let f = if which = "spec" then spec_case else run_case3 in
+    let f = if which = "spec" then spec_case2 else run_case4 in
     (try
       while true do
         let line = input_line ic in
